@@ -160,8 +160,10 @@ func (e *kvElection) handleWatchEvent(entry Entry) {
 
 	// If we're the leader, check if we're still the leader
 	if e.IsLeader() {
-		// If the new leader ID is different, we've been taken over
-		if newLeaderID != e.cfg.InstanceID {
+		// If the new leader ID is different, we've been taken over. Only a version
+		// newer than our own latest write counts: a delayed notification of a
+		// previous leader's record says nothing about the current term.
+		if newLeaderID != e.cfg.InstanceID && entry.Revision() > e.revision.Load() {
 			log := e.getLogger()
 			log.Warn("leadership_lost_via_watcher",
 				append(e.logWithContext(e.ctx),
